@@ -69,4 +69,16 @@ Winner(entries, n, mode, c) ==
 ImportsWinner(entries, n, mode, cur, c) ==
   LET below == UNION {e.below : e \in {x \in entries : x.rid = cur}} IN
   Best({e \in entries : e.mode = mode /\ e.mod \in below /\ Matches(e.alt, n, c)})
-=============================================================================
+(* ---- the priority attribute (5.5): "must be a real number (positive or negative), matching the production Number with an optional   *)
+(* leading minus sign".  Number ::= Digits ('.' Digits?)? | '.' Digits.  Anything else is an error that has to be signalled (17: no    *)
+(* recovery is offered for it).                                                                                                      *)
+PriorityLexOk(s) ==
+  LET p == IF Len(s) >= 1 /\ s[1] = 45 THEN 2 ELSE 1
+      body == SubSeq(s, p, Len(s))
+      dots == {i \in 1..Len(body) : body[i] = 46}
+  IN /\ \A i \in 1..Len(body) : body[i] \in 48..57 \/ body[i] = 46
+     /\ Cardinality(dots) <= 1
+     /\ \E i \in 1..Len(body) : body[i] \in 48..57
+(* rule A: match="a" priority=text, then rule B: match="a" priority="1" (later in the same stylesheet): which one an a element gets *)
+PriorityPick(s) == LET x == StrToNum(s) IN IF IsUnm(x) THEN "?" ELSE IF NumLt(One, x) THEN "A" ELSE "B"
+=========================================================================
